@@ -1,6 +1,7 @@
 import RocflModel.Basic.CaseTable
 import RocflModel.Spec.LayoutSpec
 import Driver.Hist
+import Driver.Phys
 import RocflModel.Json
 /-
   Line-protocol driver: runs the *model* definitions (and the spec definitions, for the oracle)
@@ -65,6 +66,7 @@ def step (st : DState) (line : String) : DState × String :=
       | none => (st, "err")
     | none => (st, "bad-arg")
   | op :: args =>
+    if op.startsWith "script-" || op.startsWith "monitor-" then (st, Driver.physStep op args) else
     let (h, out) := Driver.histStep st.hist op args
     ({ st with hist := h }, if h.nondet then out ++ " #nondet" else out)
   | _ => (st, "bad-op")
